@@ -20,11 +20,18 @@ from harness import tlc, core, trace
 DIRS = ["timingsource"]
 PROPS = ["BPMS", "STOPS", "DELAYS", "TIMESIGNATURES", "TICKCOUNTS", "COMBOS", "WARPS", "SPEEDS", "SCROLLS", "FAKES", "LABELS"]
 VER_TEXT = {1: None, 2: "", 69: "0.69", 70: "0.7", 7000: "0.70", 83: "0.83", 100: "1.0"}
-S_VAL = {"BPMS": ["0.000=100.000", "0.000=100.000,4.000=150.000"], "STOPS": "1.000=0.100", "DELAYS": "2.000=0.200", "WARPS": "3.000=0.300"}
-C_VAL = {"BPMS": ["0.000=200.000", "0.000=200.000,4.000=250.000,8.000=300.000"], "STOPS": "1.000=0.500", "DELAYS": "2.000=0.600", "WARPS": "3.000=0.700",
+S_VAL = {"BPMS": ["0.000=100.000", "0.000=100.000,4.000=150.000", "0.000=100.000,4.000=100.000"], "STOPS": "1.000=0.100", "DELAYS": "2.000=0.200", "WARPS": "3.000=0.300"}
+C_VAL = {"BPMS": ["0.000=200.000", "0.000=200.000,4.000=250.000,8.000=300.000", "0.000=200.000,4.000=200.000,8.000=200.00"], "STOPS": "1.000=0.500", "DELAYS": "2.000=0.600", "WARPS": "3.000=0.700",
          "TIMESIGNATURES": "0.000=3=4", "TICKCOUNTS": "0.000=2", "COMBOS": "0.000=2", "SPEEDS": "0.000=2.000=0.000=0", "SCROLLS": "0.000=2.000",
          "FAKES": "1.000=1.000", "LABELS": "0.000=x"}
 OFF = {"s": "0.111", "c": "0.999"}
+
+
+def bidx(cfg, side):
+    """which BPMS text a side carries: one change, several, or several with EQUAL values (cfg["eqb"])"""
+    if cfg["nb"][side] == 1:
+        return 0
+    return 2 if cfg.get("eqb") else 1
 
 
 def mc_cfg(mode, versions, patterns, offs, dbs, dbc, invs, emit, kinds=("sm", "ssc"), charts=("none", "sm", "ssc")):
@@ -49,6 +56,8 @@ def db_text(rng, cls, side):
         fmt = rng.choice(["%d", "%d.000", "%d.25", " %d ", "%de0", "0%d.50"])
         one = fmt % base
         two = (fmt % base) + ":" + (rng.choice(["%d", "%d.75", " %d"]) % (base + rng.randint(1, 50)))
+        if rng.random() < 0.25:
+            two = (fmt % base) + ":" + rng.choice(["%d", "%d.000", " %d"]) % base         # equal ends: still a range
     if cls == "one":
         return one, [Decimal(one.strip())]
     if cls == "two":
@@ -73,7 +82,7 @@ def build(cfg, rng=None):
             sf["VERSION"] = vt
     elif vt is not None and vt != "":
         sf["VERSION"] = vt          # an SM simfile carrying a VERSION key changes nothing
-    sf["BPMS"] = S_VAL["BPMS"][0 if cfg["nb"]["s"] == 1 else 1]
+    sf["BPMS"] = S_VAL["BPMS"][bidx(cfg, "s")]
     sf["STOPS"], sf["DELAYS"], sf["WARPS"] = S_VAL["STOPS"], S_VAL["DELAYS"], S_VAL["WARPS"]
     if cfg.get("replica"):
         # the chart REPEATS the song's timing: every one of the eleven properties is string-equal on the two
@@ -84,7 +93,7 @@ def build(cfg, rng=None):
             elif stt == "empty":
                 sf[p] = ""
             else:
-                sf[p] = C_VAL[p][0 if cfg["nb"]["c"] == 1 else 1] if p == "BPMS" else C_VAL[p]
+                sf[p] = C_VAL[p][bidx(cfg, "c")] if p == "BPMS" else C_VAL[p]
     exp = {"s": {}, "c": {}}
     for side, obj in (("s", sf),):
         st = cfg["off"][side]
@@ -109,7 +118,7 @@ def build(cfg, rng=None):
             elif stt == "empty":
                 chart[p] = ""
             else:
-                chart[p] = C_VAL[p][0 if cfg["nb"]["c"] == 1 else 1] if p == "BPMS" else C_VAL[p]
+                chart[p] = C_VAL[p][bidx(cfg, "c")] if p == "BPMS" else C_VAL[p]
         st = cfg["off"]["c"]
         if st == "absent":
             chart.pop("OFFSET", None)
@@ -121,7 +130,8 @@ def build(cfg, rng=None):
         else:
             chart["DISPLAYBPM"] = t
         exp["c"]["db"] = vals
-        chart.move_to_end("NOTES")
+        if rng is None or rng.random() < 0.6:
+            chart.move_to_end("NOTES")          # (otherwise the timing properties FOLLOW the note data: order is no part of the rule)
     return sf, chart, exp
 
 
@@ -136,7 +146,7 @@ def edit_chart(chart, cfg, rng):
     new_tp = [rng.choice(["absent", "empty", "nonempty"]) if rng.random() < 0.5 else t for t in cfg["tp"]]
     if rng.random() < 0.4:
         new_tp = [rng.choice(["absent", "empty"]) for _ in PROPS]          # the last non-empty one goes
-    val = lambda p: (C_VAL[p][0 if cfg["nb"]["c"] == 1 else 1] if p == "BPMS" else C_VAL[p])      # noqa
+    val = lambda p: (C_VAL[p][bidx(cfg, "c")] if p == "BPMS" else C_VAL[p])      # noqa
     only = rng.choice([None, None, "pop", "popitem", "clear"])
     if only:
         # removals only, all through ONE method that bypasses item assignment / deletion
@@ -160,7 +170,7 @@ def edit_chart(chart, cfg, rng):
                 else:
                     chart.move_to_end(p)
                     chart.popitem()
-        if "NOTES" in chart:
+        if "NOTES" in chart and rng.random() < 0.6:
             chart.move_to_end("NOTES")
         return dict(cfg, tp=new_tp)
     if rng.random() < 0.15:
@@ -191,7 +201,7 @@ def edit_chart(chart, cfg, rng):
                     chart.update({p: v})
                 else:
                     chart.setdefault(p, v)
-        if "NOTES" in chart:
+        if "NOTES" in chart and rng.random() < 0.6:
             chart.move_to_end("NOTES")
     return dict(cfg, tp=new_tp)
 
@@ -228,8 +238,8 @@ def measure(rid, cfg, sf, chart, exp, rng=None):
 
     def side_of(name, bv):
         key = name.upper()
-        s_text = S_VAL[key][0 if cfg["nb"]["s"] == 1 else 1] if key == "BPMS" else S_VAL[key]
-        c_text = C_VAL[key][0 if cfg["nb"]["c"] == 1 else 1] if key == "BPMS" else C_VAL[key]
+        s_text = S_VAL[key][bidx(cfg, "s")] if key == "BPMS" else S_VAL[key]
+        c_text = C_VAL[key][bidx(cfg, "c")] if key == "BPMS" else C_VAL[key]
         if cfg.get("replica"):
             return "both" if list(bv) == list(BeatValues.from_str(c_text)) else "other"
         if list(bv) == list(BeatValues.from_str(s_text)):
@@ -264,7 +274,7 @@ def measure(rid, cfg, sf, chart, exp, rng=None):
         for side in ("s", "c"):
             if exp[side].get("db") is not None and [Decimal(x) for x in vals] == exp[side]["db"]:
                 return [side, "displaybpm"]
-            bl = [e.value for e in BeatValues.from_str((S_VAL if side == "s" and not cfg.get("replica") else C_VAL)["BPMS"][0 if cfg["nb"]["c" if cfg.get("replica") else side] == 1 else 1])]
+            bl = [e.value for e in BeatValues.from_str((S_VAL if side == "s" and not cfg.get("replica") else C_VAL)["BPMS"][bidx(cfg, "c" if cfg.get("replica") else side)])]
             want = [bl[0]] if len(bl) == 1 else [min(bl), max(bl)]
             if [Decimal(x) for x in vals] == want:
                 return ["both" if cfg.get("replica") else side, "bpms"]
@@ -347,7 +357,8 @@ def run(ctx):
                "off": {"s": rng.choice(offs), "c": rng.choice(offs)},
                "db": {"s": rng.choice(["absent", "empty", "one", "two", "star", "three", "junk", "junkcolon"]),
                       "c": rng.choice(["absent", "empty", "one", "two", "star", "three", "junk", "junkcolon"])},
-               "nb": {"s": rng.choice([1, 2]), "c": rng.choice([1, 3])}, "ignore": rng.random() < 0.3, "replica": False}
+               "nb": {"s": rng.choice([1, 2]), "c": rng.choice([1, 3])}, "ignore": rng.random() < 0.3, "replica": False,
+               "eqb": rng.random() < 0.25}
         how = rng.random()
         if how < 0.15 and cfg["chart"] == "ssc":
             # the chart repeats the song's timing (lists non-empty on both sides), OFFSET / DISPLAYBPM differ
